@@ -1033,6 +1033,9 @@ pub fn run(case: &AsyncCase, prop: Prop) -> R<CaseReport> {
     }
     let mut rep = w.rep;
     rep.excluded_known += w.k4_excluded;
+    if w.k4_excluded > 0 {
+        rep.classes.push("k4_trigger_excluded");
+    }
     rep.nontrivial = w.queued_then_completed >= 1 || w.sub_polled_under_write_then_ready >= 1 || rep.classes.iter().any(|c| c.starts_with("owners_dropped_"));
     if w.queued_then_completed > 0 {
         rep.classes.push("task_queued_behind_write_guard_completed_after_release");
